@@ -30,6 +30,7 @@ TRUSTED_BASE = [
     "SQLite avg over the evapotranspiration join, compared with the model meanET over Rat (1e-9)",
     "PyYAML dump/load of the output",
 ]
+SQL_TIE = ('simulate_recession',)
 ASSUMPTIONS = ["ET >= 0 and curvature >= 0, not both zero; specific yield and transmissivity positive on the grid; "
                "grid below the transmissivity ceiling (highest spline knot / zeta_max)"]
 RULE = ("parameter sets of both kinds x (ET, curvature) including zero ET and zero curvature x increasing grids, through "
@@ -133,6 +134,8 @@ def run(ctx):
         levels = [r[0] for r in view]
         # (spline transmissivity costs a nested quad per evaluation: one CLI case in three)
         params = sim.spline_params(rng, min(levels), max(levels)) if _ % 3 == 0 else sim.peatclsm_params(rng, max(levels))
+        if _ % 3 == 2:
+            params = sim.mixed_params(rng, min(levels), max(levels))
         inp = {"truth": tr.describe(), "zeta_step": zstep, "parameters": params, "curvature_m_km2": curv}
         # capture the ET the command actually uses
         import spowtd.simulate_recession as srm
@@ -164,8 +167,13 @@ def run(ctx):
         vals = [Fraction(x[2]) for a, b in ivs for x in t["evapotranspiration"] if a <= x[0] < b]
         own = sum(vals) / len(vals) * 24
         et_used = used.get("et_mm_d")
-        table = yaml.safe_load(text1)
-        vector = yaml.safe_load(text2)
+        table, bad1 = sim.parse_table(text1)
+        vector, bad2 = sim.parse_vector(text2)
+        if bad1 or bad2:
+            ctx.violation("impl-violation", "c18Holds", {"input": inp, "impl": {"table": text1[:400], "vector": text2[:200]}, "oracle": {
+                "name": "c18Holds", "result": False,
+                "witness": {"why": "the output of `simulate recession` is not the table / vector of the curve: " + (bad1 or bad2)}}})
+            continue
         rows = table[1:]
         measured_d = [r[1] / 86400.0 for r in view]
         wit = None
